@@ -30,7 +30,7 @@ def do_OP_PICK(vm: Any) -> None:
     >>> print(s)
     [b'a', b'b', b'c', b'd', b'b']
     """
-    v = vm.pop_nonnegative()
+    v = pop_nonnegative_check_bounds(vm)
     vm.append(vm[-v - 1])
 
 
@@ -41,7 +41,7 @@ def do_OP_ROLL(vm: Any) -> None:
     >>> print(s)
     [b'a', b'c', b'd', b'b']
     """
-    v = vm.pop_nonnegative()
+    v = pop_nonnegative_check_bounds(vm)
     vm.append(vm.pop(-v - 1))
 
 
@@ -134,6 +134,15 @@ def pop_check_bounds(vm: Any) -> int:
     return vm.pop_int()  # type: ignore[no-any-return]
 
 
+def pop_nonnegative_check_bounds(vm: Any) -> int:
+    v = pop_check_bounds(vm)
+    if v < 0:
+        raise ScriptError(
+            "unexpectedly got negative value", errno.INVALID_STACK_OPERATION
+        )
+    return v
+
+
 def make_bin_op(binop: Callable[[int, int], int]) -> Callable[[Any], None]:
     def f(vm: Any) -> None:
         v1, v2 = [pop_check_bounds(vm) for i in range(2)]
@@ -185,7 +194,7 @@ def do_OP_WITHIN(vm: Any) -> None:
     >>> print(s == [b''])
     True
     """
-    v3, v2, v1 = [vm.pop_int() for i in range(3)]
+    v3, v2, v1 = [pop_check_bounds(vm) for i in range(3)]
     ok = v2 <= v1 < v3
     vm.append(vm.bool_to_script_bytes(ok))
 
